@@ -213,7 +213,7 @@ func main() {
 	r := ev.Start("C01")
 	defer r.RecoverMain()
 	defer world.Cleanup()
-	r.SetBudget(ev.Pick(r, 240*time.Second, 25*time.Minute))
+	r.SetBudget(ev.Pick(r, 600*time.Second, 25*time.Minute))
 	r.Assume("tomb sweeper disabled", "shadow mode: one shared monotone logical clock; steady state (all application writes are made while the loop glue runs)",
 		"the loop's lastSyncedTxnID bookkeeping is replicated by the harness (SendOnce/LoadOnce are driven directly; the real loop is explored by the E3 checks)",
 		"timestamps canonicalised by rank (0 kept): every decision in the merge code compares two timestamps or a timestamp with 0")
